@@ -391,10 +391,10 @@ func checkC20(c *Check) {
 	{
 		// the lookup + cancel step and the registration step may each sit in WatchFile or in a helper it calls
 		type step struct {
-			fn   *ssa.Function
-			at   ssa.Instruction // instruction of WatchFile that performs the step (itself or the helper call)
-			key  ssa.Value       // key as seen from WatchFile
-			good bool
+			fn    *ssa.Function
+			at    ssa.Instruction // instruction of WatchFile that performs the step (itself or the helper call)
+			key   ssa.Value       // key as seen from WatchFile
+			good  bool
 			found ssa.Value
 		}
 		keyInWF := func(fn *ssa.Function, k ssa.Value, call ssa.CallInstruction) ssa.Value {
@@ -561,34 +561,42 @@ func checkC20(c *Check) {
 			// callback only under content differs
 			okDiff := false
 			for _, bf := range deepFuncs(body, 2) {
-			for _, b := range bf.Blocks {
-				for _, ins := range b.Instrs {
-					g, ok := ins.(*ssa.Go)
-					if !ok {
-						if cc, isC := ins.(*ssa.Call); isC && fieldNameOfLoad(resolveCell(stripConv(cc.Common().Value))) == "callback" {
-							_ = cc
+				for _, b := range bf.Blocks {
+					for _, ins := range b.Instrs {
+						g, ok := ins.(*ssa.Go)
+						if !ok {
+							if cc, isC := ins.(*ssa.Call); isC && fieldNameOfLoad(resolveCell(stripConv(cc.Common().Value))) == "callback" {
+								_ = cc
+							} else {
+								continue
+							}
+						}
+						var cv ssa.Value
+						if ok {
+							cv = g.Common().Value
 						} else {
+							cv = ins.(*ssa.Call).Common().Value
+						}
+						if fieldNameOfLoad(resolveCell(stripConv(cv))) != "callback" {
 							continue
 						}
-					}
-					var cv ssa.Value
-					if ok {
-						cv = g.Common().Value
-					} else {
-						cv = ins.(*ssa.Call).Common().Value
-					}
-					if fieldNameOfLoad(resolveCell(stripConv(cv))) != "callback" {
-						continue
-					}
-					for cond, pol := range FactsOf(bf).At(ins) {
-						if bo, isB := cond.(*ssa.BinOp); isB && (bo.Op == token.NEQ && pol || bo.Op == token.EQL && !pol) && isString(bo.X.Type()) {
-							if depFields(bo.X)["data"] || depFields(bo.Y)["data"] {
-								okDiff = true
+						for cond, pol := range FactsOf(bf).At(ins) {
+							if bo, isB := cond.(*ssa.BinOp); isB && (bo.Op == token.NEQ && pol || bo.Op == token.EQL && !pol) && isString(bo.X.Type()) {
+								if depFields(bo.X)["data"] || depFields(bo.Y)["data"] {
+									okDiff = true
+								}
+							}
+							// the same test spelled bytes.Equal(a, b) == false (or slices.Equal)
+							inner, neg := unwrapBool(cond)
+							if ec, _, isC := asCall(inner); isC && isCallToAny(ec, "bytes.Equal", "slices.Equal") && (pol != neg) == false {
+								a := ec.Common().Args
+								if len(a) == 2 && (depFields(a[0])["data"] || depFields(a[1])["data"]) {
+									okDiff = true
+								}
 							}
 						}
 					}
 				}
-			}
 			}
 			c.Obl(okDiff, "C20.R5", "callback-only-on-change", P.Pos(body.Pos()), "the callback is invoked only when the content differs from the last seen one", "the reload callback is invoked without the `content differs` test")
 		}
